@@ -78,6 +78,11 @@ where
         if let Some(path) = path {
             let location = name.origin.clone();
             let Err(e) = replace_current_process(env, path, args).await;
+            if env.is_interactive() {
+                // The shell goes on, so it needs the internal dispositions
+                // `replace_current_process` has disabled.
+                enable_internal_dispositions(env).await;
+            }
             let report = ExecFailure { inner: e, location };
             let _ = report_failure(env, &report).await;
             result.set_exit_status(env.exit_status);
@@ -88,6 +93,20 @@ where
     }
 
     result
+}
+
+/// Installs the internal dispositions an interactive shell has.
+async fn enable_internal_dispositions<S: SignalSystem>(env: &mut Env<S>) {
+    env.traps
+        .enable_internal_dispositions_for_terminators(&env.system)
+        .await
+        .ok();
+    if env.controls_jobs() {
+        env.traps
+            .enable_internal_dispositions_for_stoppers(&env.system)
+            .await
+            .ok();
+    }
 }
 
 #[derive(Debug)]
